@@ -6,7 +6,7 @@
    why size and time stay polynomial in depth).                                                  *)
 EXTENDS Integers, Sequences, TLC, Json
 Log == ndJsonDeserialize("trace.ndjson")
-LimitMs == 5000
+LimitMs == 10000      \* "within seconds": single digits, with room for a loaded machine
 VARIABLES l, bad
 vars == <<l, bad>>
 Why(e) == IF e.outcome = "panic" THEN "panic"
